@@ -19,8 +19,8 @@ type BF struct {
 	Kids  []*BF    `json:"kids,omitempty"`
 }
 
-func bfVar(n string) *BF           { return &BF{Op: "var", Name: n} }
-func bfUnique(ns ...string) *BF    { return &BF{Op: "unique", Names: ns} }
+func bfVar(n string) *BF          { return &BF{Op: "var", Name: n} }
+func bfUnique(ns ...string) *BF   { return &BF{Op: "unique", Names: ns} }
 func bfN(op string, k ...*BF) *BF { return &BF{Op: op, Kids: k} }
 
 var bfTrue = &BF{Op: "true"}
